@@ -664,10 +664,12 @@ struct Driver {
       if (!gapped_ids) for (auto& in : insts) if (in->pos_of_id((unsigned)w.size()) >= 0) { c.count("skip.insert.natural_id_taken"); --w.next_key; return true; }
     }
     if constexpr (!F::ru) {
-      // a chain matrix reduces an inserted boundary by decreasing identifier: once vine swaps have made the identifiers
-      // non-monotone along the filtration this is a different order.  Recorded in the signature; without a stored
-      // barcode (no position map in the matrix) such insertions are made only once in a while, so that the known
-      // consequence does not end most histories early.
+      // A chain matrix reduces an inserted boundary by decreasing identifier; insert_boundary documents that "all IDs have
+      // to be strictly increasing in the order of filtration".  Once vine swaps have made the identifiers of the live cells
+      // non-monotone along the filtration, a matrix that stores the barcode still has the positions at hand (so the
+      // property's "later insertions behave as on the fresh matrix" is demanded, and the situation is recorded in the
+      // signature); a matrix without stored barcode has no way to know the order, so there the documented restriction is
+      // respected and the insertion is skipped.
       bool unsorted = false;
       for (auto& in : insts) {
         bool u = false;
@@ -676,7 +678,7 @@ struct Driver {
         unsorted = unsorted || u;
       }
       if constexpr (!F::bar) {
-        if (unsorted && !r.chance(1, 8)) { c.count("skip.insert.nobar_chain_ids_unsorted"); --w.next_key; return true; }
+        if (unsorted) { c.count("skip.insert.nobar_chain_ids_unsorted"); --w.next_key; return true; }
       }
       c.count(unsorted ? "op.insert.idorder_unsorted" : "op.insert.idorder_sorted");
     }
